@@ -120,6 +120,133 @@ def _name_class(pat: str):
     return None
 
 
+_TRIMS = {"strip": "lr", "lstrip": "l", "rstrip": "r"}
+
+
+class _ParamFlow:
+    """Flow-insensitive derivation facts of TemplateNode.template_parameters: which locals hold the part of an argument
+    string before / after its `=` (split kinds: index/find + slices, partition, split(.., 1) -- the `r` forms split at
+    the LAST `=`), and which trims (l, r) were applied on the way.  A derivation is (part, trims) with part in
+    {"whole", "name", "value"}."""
+
+    def __init__(self, fn):
+        self.fn = fn
+        self.split_first = []   # call nodes that split at the first '='
+        self.split_last = []    # call nodes that split at the last '='
+        self.membership = []    # tests `'=' in P` / truthiness of the separator
+        self.env: dict = {}
+        self.index_vars: dict = {}   # name -> receiver text
+        self.sep_vars: set = set()
+        self.receivers: set = set()
+        self._scan_splits()
+        for _ in range(6):
+            before = {k: set(v) for k, v in self.env.items()}
+            self._pass()
+            if before == self.env:
+                break
+
+    @staticmethod
+    def _is_eq(a) -> bool:
+        return isinstance(a, ast.Constant) and a.value == "="
+
+    def _scan_splits(self):
+        for n in ast.walk(self.fn):
+            if isinstance(n, ast.Call) and isinstance(n.func, ast.Attribute) and n.args and self._is_eq(n.args[0]):
+                a = n.func.attr
+                if a in ("index", "find", "partition") or (a == "split" and len(n.args) == 2):
+                    self.split_first.append(n)
+                    self.receivers.add(unparse(n.func.value))
+                elif a in ("rindex", "rfind", "rpartition", "rsplit"):
+                    self.split_last.append(n)
+                    self.receivers.add(unparse(n.func.value))
+            if isinstance(n, ast.Compare) and len(n.ops) == 1 and isinstance(n.ops[0], (ast.In, ast.NotIn)) and self._is_eq(n.left):
+                self.membership.append(n)
+        for r in self.receivers:
+            self.env.setdefault(r, set()).add(("whole", ""))
+
+    def _add(self, name, ders):
+        if ders:
+            self.env.setdefault(name, set()).update(ders)
+
+    def derive(self, e) -> set:
+        if isinstance(e, ast.Name):
+            return set(self.env.get(e.id, ()))
+        if isinstance(e, ast.Call) and isinstance(e.func, ast.Attribute) and e.func.attr in _TRIMS and not e.args:
+            add = _TRIMS[e.func.attr]
+            return {(p, "".join(sorted(set(t) | set(add)))) for p, t in self.derive(e.func.value)}
+        if isinstance(e, ast.Call) and isinstance(e.func, ast.Name) and e.func.id in ("int", "str") and len(e.args) == 1:
+            return self.derive(e.args[0])
+        if isinstance(e, ast.Subscript):
+            base = self.derive(e.value)
+            sl = e.slice
+            if isinstance(sl, ast.Slice) and any(p == "whole" for p, _ in base):
+                def is_idx(x):
+                    return isinstance(x, ast.Name) and x.id in self.index_vars
+                def is_idx_plus1(x):
+                    return isinstance(x, ast.BinOp) and isinstance(x.op, ast.Add) and (
+                        (is_idx(x.left) and isinstance(x.right, ast.Constant) and x.right.value == 1)
+                        or (is_idx(x.right) and isinstance(x.left, ast.Constant) and x.left.value == 1))
+                if sl.lower is None and sl.upper is not None and is_idx(sl.upper) and sl.step is None:
+                    return {("name", "l" if "l" in t else "") for p, t in base if p == "whole"}
+                if sl.upper is None and sl.lower is not None and is_idx_plus1(sl.lower) and sl.step is None:
+                    return {("value", "r" if "r" in t else "") for p, t in base if p == "whole"}
+            # element of partition/split result
+            if isinstance(e.value, ast.Call) and (e.value in self.split_first or e.value in self.split_last) \
+                    and isinstance(sl, ast.Constant) and isinstance(sl.value, int):
+                attr = e.value.func.attr
+                last = 2 if "partition" in attr else 1
+                if sl.value == 0:
+                    return {("name", "")}
+                if sl.value in (last, -1):
+                    return {("value", "")}
+        if isinstance(e, ast.IfExp):
+            return self.derive(e.body) | self.derive(e.orelse)
+        return set()
+
+    def _pass(self):
+        for n in ast.walk(self.fn):
+            if isinstance(n, ast.AnnAssign) and n.value is not None:
+                tgts, v = [n.target], n.value
+            elif isinstance(n, ast.Assign):
+                tgts, v = n.targets, n.value
+            else:
+                continue
+            for tg in tgts:
+                if isinstance(tg, ast.Name):
+                    if isinstance(v, ast.Call) and v in self.split_first + self.split_last and v.func.attr in ("index", "find", "rindex", "rfind"):
+                        self.index_vars[tg.id] = unparse(v.func.value)
+                    else:
+                        self._add(tg.id, self.derive(v))
+                elif isinstance(tg, (ast.Tuple, ast.List)) and isinstance(v, ast.Call) and v in self.split_first + self.split_last \
+                        and all(isinstance(x, ast.Name) for x in tg.elts):
+                    attr = v.func.attr
+                    if "partition" in attr and len(tg.elts) == 3:
+                        self._add(tg.elts[0].id, {("name", "")})
+                        self._add(tg.elts[2].id, {("value", "")})
+                        self.sep_vars.add(tg.elts[1].id)
+                    elif "split" in attr and len(tg.elts) == 2:
+                        self._add(tg.elts[0].id, {("name", "")})
+                        self._add(tg.elts[1].id, {("value", "")})
+
+    def stores(self):
+        """(key expr, value expr, node) of every `parameters[K].append(V)` / `parameters[K] = V`"""
+        out = []
+        for n in ast.walk(self.fn):
+            if isinstance(n, ast.Call) and isinstance(n.func, ast.Attribute) and n.func.attr == "append" and len(n.args) == 1 \
+                    and isinstance(n.func.value, ast.Subscript):
+                out.append((n.func.value.slice, n.args[0], n))
+        return out
+
+
+def _param_flow(ctx):
+    tp = ctx.fn("parser.TemplateNode.template_parameters")
+    pf = _ParamFlow(tp)
+    if not pf.split_first and not pf.split_last:
+        raise AnalysisError("parser.TemplateNode.template_parameters: how an argument is split at '=' was not recognised "
+                            "(known: index/find + slices, partition, split('=', 1))")
+    return tp, pf
+
+
 def rule_r2(ctx) -> RuleResult:
     rr = RuleResult("C14.R2", "expander and bridge recognise the same arguments as named; the parser splits at the first '='", min_instances=4)
     tb = X.template_branch(ctx)
@@ -147,31 +274,58 @@ def rule_r2(ctx) -> RuleResult:
     outside = sorted({ch for ch in "[]&'\"<>" if ce.test(ch) != cb.test(ch)})
     if outside:
         rr.informational.append({"name_classes_differ_outside_alphabet": outside})
-    tp = ctx.fn("parser.TemplateNode.template_parameters")
-    src = unparse(tp)
-    if "parameter.index('=')" in src and "'=' in parameter" in src:
-        rr.ok("parser.TemplateNode.template_parameters", "named iff '=' present; split at the first '='")
-    else:
-        rr.bad(Finding("C14.R2", PARSER, "parser.TemplateNode.template_parameters", "parameter.index('=')", "the parser no longer splits at the first '='", tp.lineno))
+    tp, pf = _param_flow(ctx)
+    for n in pf.split_last:
+        rr.bad(Finding("C14.R2", PARSER, "parser.TemplateNode.template_parameters", unparse(n),
+                       "the parser splits an argument at the LAST '=' ({}), the expander and the bridge at the first: "
+                       "`a=b=c` gets name `a=b` in one view and `a` in the others".format(n.func.attr), n.lineno))
+    if pf.split_first and not pf.split_last:
+        tested = bool(pf.membership) or any(isinstance(t, ast.Name) and t.id in pf.sep_vars for n in ast.walk(tp) if isinstance(n, ast.If)
+                                            for t in ast.walk(n.test))
+        if not tested:
+            raise AnalysisError("parser.TemplateNode.template_parameters: the test that makes an argument named ('=' present) was not recognised")
+        rr.ok("parser.TemplateNode.template_parameters", "named iff '=' present; split at the first '=' ({})".format(
+            ", ".join(sorted({n.func.attr for n in pf.split_first}))))
     return rr
 
 
 def rule_r3(ctx) -> RuleResult:
     rr = RuleResult("C14.R3", "named values trimmed on both sides, positional values verbatim, in all three", min_instances=4)
-    tp = ctx.fn("parser.TemplateNode.template_parameters")
-    src = unparse(tp)
-    need = {
-        "name .strip()": "parameter[:equal_sign_index].strip()",
-        "value .lstrip()": "parameter[equal_sign_index + 1:].lstrip()",
-        "single-chunk value .strip()": "parameter_value = parameter_value.strip()",
-        "last chunk .rstrip()": "parameter = parameter.rstrip()",
-    }
-    for what, frag in need.items():
-        if frag in src:
-            rr.ok("parser.TemplateNode.template_parameters", what)
+    tp, pf = _param_flow(ctx)
+    named_stores = 0
+    for key, val, node in pf.stores():
+        kd = pf.derive(key)
+        if not any(p == "name" for p, _ in kd):
+            continue
+        named_stores += 1
+        loose = sorted(t for p, t in kd if p == "name" and set(t) != {"l", "r"})
+        if loose:
+            rr.bad(Finding("C14.R3", PARSER, "parser.TemplateNode.template_parameters", unparse(node)[:80],
+                           "the parser view no longer trims the named argument's name on both sides (a derivation of the key "
+                           "carries trims {!r})".format(loose[0]), node.lineno))
         else:
-            rr.bad(Finding("C14.R3", PARSER, "parser.TemplateNode.template_parameters", frag,
-                           "the parser view no longer trims the named argument's {}".format(what), tp.lineno))
+            rr.ok("parser.TemplateNode.template_parameters", "name .strip(): " + unparse(node)[:60])
+        vd = pf.derive(val)
+        vparts = {p for p, _ in vd}
+        if "value" in vparts:
+            if any(p == "value" and "l" not in t for p, t in vd):
+                rr.bad(Finding("C14.R3", PARSER, "parser.TemplateNode.template_parameters", unparse(node)[:80],
+                               "the parser view no longer trims the named argument's value on the left", node.lineno))
+            else:
+                rr.ok("parser.TemplateNode.template_parameters", "value .lstrip(): " + unparse(node)[:60])
+            if any(p == "value" and set(t) == {"l", "r"} for p, t in vd):
+                rr.ok("parser.TemplateNode.template_parameters", "single-chunk value .strip()")
+            else:
+                rr.bad(Finding("C14.R3", PARSER, "parser.TemplateNode.template_parameters", unparse(node)[:80],
+                               "the parser view never trims the right end of a single-chunk named value", node.lineno))
+        elif "whole" in vparts:
+            if any(p == "whole" and "r" in t for p, t in vd):
+                rr.ok("parser.TemplateNode.template_parameters", "last chunk .rstrip()")
+            else:
+                rr.bad(Finding("C14.R3", PARSER, "parser.TemplateNode.template_parameters", unparse(node)[:80],
+                               "the parser view never trims the right end of the last chunk of a named value", node.lineno))
+    if named_stores == 0:
+        raise AnalysisError("parser.TemplateNode.template_parameters: no store under a key derived from the text before '=' was recognised")
     # positional path: stores to parameters[unnamed_parameter_index] are untrimmed
     for n in ast.walk(tp):
         if isinstance(n, ast.Call) and isinstance(n.func, ast.Attribute) and n.func.attr == "append" \
